@@ -30,6 +30,8 @@ import Pog.Lemmas.GenCode
                                            generate the same fields, the same class body and the same key maps (or raise the same exception)
     sorted_props_is_sorted                 required properties first, each group in ascending code-point order, a permutation of the properties
 -/
+-- MODULE Pog.Props.C02b
+-- INDEX Pog.C02b: parse_perm_invariant_partial2
 -- INDEX Pog.DcProps: sorted_props_is_sorted, sorted_props_order_independent, sorted_props_required_order_independent, generate_order_independent
 /-
   C19 at the loader (Pog/Model/Loader.lean; claimed from Pog/Props/Loader.lean):
